@@ -384,7 +384,7 @@ fn main() {
 
     let (nrandom, nvals) = match tier.as_str() {
         "thorough" => (400, 160),
-        "miri" => (1, 3),
+        "miri" => (0, 2),
         _ => (36, 20),
     };
     let mut units = vec![];
@@ -408,9 +408,11 @@ fn main() {
             Only { val: r["value"].as_str().map(|s| s.to_string()), width: r["width"].as_u64().map(|w| w as usize), policy: r["policy"].as_str().and_then(CanonPolicy::parse) },
         ));
     } else {
-        units.extend(boundary_units());
-        units.push(flags_unit());
-        if tier != "miri" {
+        if tier == "miri" {
+            units.push(miri_unit());
+        } else {
+            units.extend(boundary_units());
+            units.push(flags_unit());
             units.push(dealloc_unit());
             units.push(limits_unit());
         }
@@ -443,7 +445,7 @@ fn main() {
         }
     }
     if tier == "miri" {
-        work.truncate(60);
+        work.truncate(24);
     }
     rep.extra.insert("units".into(), json!(units.len()));
     rep.extra.insert("types_scheduled".into(), json!(work.len()));
